@@ -8,7 +8,7 @@ import (
 
 var Lits = []string{"a", "b", "ab", "foo", "bar", "foobar", "x", "q", "fo", "ba"}
 var MidLits = []string{"a", "b", "ab", "id:", "foo", "x"}
-var Hosts = []string{"a.com", "b.com", "{h0}.com", "a.{h1}", "x.a.com", "{h0}.a.com", "a.co", "a{h0}.com", "{h0}.{h1}", "a.com.org", "ab.com", "x.{h1}.com", "{h0}.co", "{h0}.com.org", "a{h0}.co", "x.{h1}.co", "a.b.c", "a.b.d.e", "a.b.d.{h3}", "a.{h1}.c", "a.b", "a.{h1}.d.e", "{h0}.b.com", "{h0}.{h1}.com", "api-eu.com", "api.com"}
+var Hosts = []string{"a.com", "b.com", "{h0}.com", "a.{h1}", "x.a.com", "{h0}.a.com", "a.co", "a{h0}.com", "{h0}.{h1}", "a.com.org", "ab.com", "x.{h1}.com", "{h0}.co", "{h0}.com.org", "a{h0}.co", "x.{h1}.co", "a.b.c", "a.b.d.e", "a.b.d.{h3}", "a.{h1}.c", "a.b", "a.{h1}.d.e", "{h0}.b.com", "{h0}.{h1}.com", "api-eu.com", "api.com", "api", "api-int", "a.com-m.org", "{h0}.co-op"}
 var Methods = []string{"GET", "POST", "PATCH", "FOO"}
 
 // Profile tunes the generator.
@@ -148,6 +148,16 @@ func Grow(r *rand.Rand, pf Profile, base string) string {
 // GrowHost derives a pattern that shares the path but changes / adds a hostname.
 func GrowHost(r *rand.Rand, base string) string {
 	hostEnd := strings.IndexByte(base, '/')
+	if hostEnd > 0 && r.IntN(3) == 0 {
+		// a hostname that continues the base's own hostname right after its last byte: with a hyphen (sorts before
+		// '.' and '/'), a letter, a digit or a further label - the registered host becomes an inner node with a path
+		// sub-tree of its own
+		h := base[:hostEnd]
+		if !strings.HasSuffix(h, "}") {
+			return h + []string{"-x", "-mirror.org", "x", "0", ".a", ".{h9}", "-{h9}"}[r.IntN(7)] + base[hostEnd:]
+		}
+		return h + []string{".a", ".org", ".{h9}"}[r.IntN(3)] + base[hostEnd:]
+	}
 	return Hosts[r.IntN(len(Hosts))] + base[hostEnd:]
 }
 
